@@ -88,12 +88,29 @@ def _code(fn):
         return OTHER
 
 
+class EqBox(Box):
+    """Like Box, but every EqBox compares equal to every other one (equal, not identical)."""
+
+    __slots__ = ()
+
+    def __eq__(self, other):
+        return isinstance(other, EqBox)
+
+    def __hash__(self):
+        return 17
+
+
 def make_objects(n):
     """The object universe of spec/locals/Locals.tla (KindOf / Init0), identifiers 1..n.  Some are
     always truthy, some always falsy (0, "", [], {}), some change (FBox, a list emptied through a
     proxy).  Objects are identified by `is`."""
     objs = {1: Box(1), 2: FBox(2), 3: [7, 7], 4: Box(4), 5: 0, 6: "", 7: [], 8: {},
-            9: 3, 10: "ab", 11: (1, 2), 12: frozenset({1})}
+            9: 3, 10: "ab", 11: (1, 2), 12: frozenset({1}),
+            # equal (==) to another object of the universe, but not the same object
+            13: [], 14: {}, 15: set(), 16: set(), 17: EqBox(17), 18: EqBox(18),
+            19: True, 20: 1, 21: 1.0,
+            22: "".join(["e", " ", "q", "!"]), 23: "".join(["e", " ", "q", "!"])}
+    assert objs[22] is not objs[23] and objs[22] == objs[23]
     return {i: objs[i] for i in range(1, n + 1)}
 
 
@@ -326,7 +343,7 @@ class Env:
     def _state(obj):
         """The object's state as the model sees it: field `val`, or the length of a container."""
         try:
-            v = obj.val if isinstance(obj, Box) else len(obj) if isinstance(obj, (list, dict)) else 0
+            v = obj.val if isinstance(obj, Box) else len(obj) if isinstance(obj, (list, dict, set)) else 0
             return v if isinstance(v, int) and not isinstance(v, bool) else -1
         except Exception:
             return -1
@@ -403,7 +420,7 @@ class Env:
             elif isinstance(obj, Box):
                 v = p.val
                 e["val"] = v if isinstance(v, int) and not isinstance(v, bool) else -1
-            elif isinstance(obj, int):
+            elif isinstance(obj, (int, float)):
                 e["val"] = int(p)
             else:
                 e["val"] = len(p)
@@ -440,7 +457,7 @@ _MISSING = object()
 
 
 def _size(v):
-    return v if isinstance(v, int) else len(v)
+    return int(v) if isinstance(v, (int, float)) else len(v)
 
 
 def _hash_or_none(b):
@@ -638,7 +655,7 @@ def _process_loop():
     return _LOOP[pid]
 
 
-def run_trace(real, ops, *, names=("x", "y", "z"), nboxes=12, made=(), ctor="default"):
+def run_trace(real, ops, *, names=("x", "y", "z"), nboxes=23, made=(), ctor="default"):
     """Execute `ops` in the given realisation; returns the trace lines (cfg + one per op).
     A "nop" line also carries what the driver's own (main) context reads: it never writes, so it
     must see nothing, before and after everything the other contexts did."""
@@ -746,7 +763,7 @@ class LTS:
 
 
 # ------------------------------------------------------------------------------ random schedules
-def random_ops(rng, length, *, nctx=3, names=("x", "y", "z"), nboxes=12, vals=(0, 1, 2, 7), made=(),
+def random_ops(rng, length, *, nctx=3, names=("x", "y", "z"), nboxes=23, vals=(0, 1, 2, 7), made=(),
                max_stack=5):
     """A seeded random behaviour of the model's vocabulary (tracks only what is needed to keep
     operations enabled: which contexts exist, which proxies exist, stack depth is irrelevant)."""
